@@ -169,10 +169,12 @@ impl PriceLevel {
     ) -> MatchResult {
         let mut result = MatchResult::new(taker_order_id, incoming_quantity);
         let mut remaining = incoming_quantity;
-        // Orders that display nothing and have nothing to replenish with cannot trade in this
-        // call; they are kept out of the queue until it returns, otherwise the loop would pop
-        // and re-queue them forever.
-        let mut set_aside: Vec<Arc<OrderType<()>>> = Vec::new();
+        // Orders that keep their time priority but cannot trade (any further) in this call:
+        // those that display nothing and have nothing to replenish with - popping and
+        // re-queueing them would never end - and the order that was partially filled. They
+        // stay out of the queue until the call returns and are then handed back to its head
+        // together, in the order in which they were reached.
+        let mut hand_back: Vec<Arc<OrderType<()>>> = Vec::new();
 
         while remaining > 0 {
             if let Some(order_arc) = self.orders.pop() {
@@ -180,7 +182,7 @@ impl PriceLevel {
                     order_arc.match_against(remaining);
 
                 if consumed == 0 && hidden_reduced == 0 && updated_order.is_some() {
-                    set_aside.push(order_arc);
+                    hand_back.push(order_arc);
                     continue;
                 }
 
@@ -226,12 +228,9 @@ impl PriceLevel {
                         // replenished from hidden quantity: joins at the back
                         self.orders.push(Arc::new(updated));
                     } else {
-                        // partially filled: keeps its time priority, behind the orders that
-                        // were set aside before it was reached
-                        for order in set_aside.drain(..) {
-                            self.orders.push_front(order);
-                        }
-                        self.orders.push_front(Arc::new(updated));
+                        // partially filled (or display used up with nothing to replenish it):
+                        // keeps its time priority, behind the orders passed over before it
+                        hand_back.push(Arc::new(updated));
                     }
                 } else {
                     self.order_count.fetch_sub(1, Ordering::AcqRel);
@@ -264,8 +263,8 @@ impl PriceLevel {
             }
         }
 
-        for order in set_aside {
-            self.orders.push_front(order);
+        if !hand_back.is_empty() {
+            self.orders.push_front_all(hand_back);
         }
 
         result.remaining_quantity = remaining;
